@@ -15,6 +15,7 @@ import (
 	"encoding/json"
 	"errors"
 	"fmt"
+	"os"
 	"sort"
 	"strings"
 	"testing"
@@ -28,6 +29,9 @@ import (
 func genCrashHistory(t *rapid.T, rich bool) *c14Case {
 	cs, g := genHistory(t, false)
 	cs.Pass = passSpec{Kind: "time", Orgs: append([]int64(nil), cs.Orgs...), Reps: 1}
+	// most histories: the server was restarted since the last rotation (nothing is "recently rotated"), so
+	// that DeleteEmptyIndices really deletes the indexes whose segments all expired
+	cs.PreRestart = rich || rapid.IntRange(0, 2).Draw(t, "preRestart") > 0
 	if rich {
 		// the first history of a run reaches every instrumented function: expired and surviving log and
 		// metrics segments, and an index whose segments all expire
@@ -152,9 +156,10 @@ func selectPoints(hits map[string]int64) []crashPoint {
 	}
 	sort.Strings(labels)
 	var out []crashPoint
+	only := os.Getenv("C14_CRASH_ONLY") // development: restrict the enumeration to labels with this prefix
 	for _, l := range labels {
 		c := hits[l]
-		if c < 1 {
+		if c < 1 || !strings.HasPrefix(l, only) {
 			continue
 		}
 		ks := map[int64]bool{1: true, c: true, (1 + c) / 2: true}
